@@ -90,15 +90,6 @@ func vUsedVars(ss ast.SelectionSet, out map[string]bool) {
 	}
 }
 
-func (f *vFed) svcByURL(url string) *vSvc {
-	for _, s := range f.svcs {
-		if s.url == url {
-			return s
-		}
-	}
-	return nil
-}
-
 // C02: every sub-request is valid for, and owned by, the service it is sent to
 func VerifSubRequests() {
 	vProp = "C02"
